@@ -742,6 +742,89 @@ fn check_full(case: &FullCase, ctx: &mut Ctx) {
     }
 }
 
+// ------------------------------------------------------------------------------------------------
+// section large_register: neighbours holding large, mostly overlapping versions of one register
+// ------------------------------------------------------------------------------------------------
+
+#[derive(Clone, Debug, Serialize, Deserialize)]
+pub struct LargeRegCase {
+    /// node 0 holds ops[0..a], node 1 holds ops[from..to] of a pool of 720 (open register): both are large,
+    /// their sizes add up to more than the 1024-entry limit while their union stays far below it
+    pub a: u16,
+    pub from: u16,
+    pub to: u16,
+    pub sched: Vec<u16>,
+}
+
+fn large_reg_strategy() -> BoxedStrategy<LargeRegCase> {
+    (520u16..=700, 0u16..=40, 0u16..=20, proptest::collection::vec(any::<u16>(), 0..30))
+        .prop_map(|(a, from, ahead, sched)| LargeRegCase { a, from, to: (a + ahead).min(720), sched })
+        .boxed()
+}
+
+fn large_pool() -> &'static Vec<RegisterOp> {
+    static POOL: std::sync::OnceLock<Vec<RegisterOp>> = std::sync::OnceLock::new();
+    POOL.get_or_init(|| fix::register_ops(OWNER + 7, META + 1, 720, &[OWNER + 7]))
+}
+
+fn check_large_reg(case: &LargeRegCase, ctx: &mut Ctx) {
+    let pool = large_pool();
+    let base = fix::register_base(OWNER + 7, META + 1, None);
+    let key = fix::register_key(OWNER + 7, META + 1);
+    let (a, from, to) = (case.a as usize, case.from as usize, (case.to as usize).max(case.from as usize + 1));
+    let mut cl = Cluster::new(&[300, 301], None);
+    cl.seed_record(0, fix::register_record(key.clone(), &fix::signed_register(&base, OWNER + 7, pool[0..a].to_vec())));
+    cl.seed_record(1, fix::register_record(key.clone(), &fix::signed_register(&base, OWNER + 7, pool[from..to].to_vec())));
+    let union_len = to.max(a);
+    let ops_of = |cl: &mut Cluster, i: usize| -> Option<std::collections::BTreeSet<RegisterOp>> {
+        cl.local_get(i, &key).and_then(|r| try_deserialize_record::<SignedRegister>(&r).ok()).map(|r| r.ops().clone())
+    };
+    let mut si = 0usize;
+    let mut before: Vec<BTreeMap<Vec<u8>, Vec<u8>>> = vec![];
+    for round in 0..8 {
+        let now: Vec<BTreeMap<Vec<u8>, Vec<u8>>> = (0..2).map(|i| cl.snapshot(i)).collect();
+        if round >= 2 && now == before {
+            break;
+        }
+        before = now;
+        for i in 0..2 {
+            let d = &mut cl.nodes[i].driver;
+            cl.rt.block_on(async move {
+                d.verif_reset_replication_throttle();
+                let _ = d.verif_handle_local_cmd(LocalSwarmCmd::TriggerIntervalReplication);
+            });
+        }
+        let sched = case.sched.clone();
+        let s = &mut si;
+        cl.settle_with(|pending| {
+            let c = sched.get(*s).copied().unwrap_or(0);
+            *s += 1;
+            pick_idx(c, pending.len())
+        });
+        if cl.inconclusive {
+            ctx.label("inconclusive_timeout");
+            return;
+        }
+    }
+    let want: std::collections::BTreeSet<RegisterOp> = pool[0..a].iter().chain(pool[from..to].iter()).cloned().collect();
+    debug_assert_eq!(want.len(), union_len);
+    ctx.label_if(a + (to - from) > 1024, "sizes_add_up_beyond_the_entry_limit");
+    ctx.nontrivial_if(a + (to - from) > 1024 && want.len() > a.max(to - from));
+    for i in 0..2 {
+        match ops_of(&mut cl, i) {
+            None => ctx.fail("held_register_not_replicated_to_neighbour", format!("node {i} lost the register")),
+            Some(have) => {
+                if have != want {
+                    ctx.fail(
+                        "diverged_large_register_not_converged_by_replication",
+                        format!("node {i} holds {} entries, the union of both neighbours' versions has {} (node 0 started with {a}, node 1 with {}; limit 1024)", have.len(), want.len(), to - from),
+                    );
+                }
+            }
+        }
+    }
+}
+
 pub fn run(cfg: RunCfg) {
     let mut rep = Report::new(cfg, "exploration");
     rep.rule = "C09: 2-3 real nodes (each other's closest peers, spare capacity, unrestricted range) with generated initial contents (4 chunks, a register with op subsets, a transaction set, a scratchpad with counters; missing / diverging), 2-4 rounds of interval replication on every node, every message delivered in a generated order; the harness is the transport.".into();
@@ -769,6 +852,11 @@ pub fn run(cfg: RunCfg) {
         rep, "full_node", (500, 8_000), 16,
         "node 0 filled to its capacity (2..5 records) with a register / transaction set and chunks placed closer to it (or one beyond it), a farther record refused with MaxRecords, the neighbour holding another version of the mutable record; 2..3 replication rounds in generated delivery order. non-trivial: versions differ and the mutable record is node 0's farthest",
         full_strategy, check_full
+    );
+    vh_core::section!(
+        rep, "large_register", (12, 400), 12,
+        "two neighbours hold large versions (520-700 entries each, differing by a few entries at either end) of one open register: sizes add up beyond the 1024-entry limit, the union does not; rounds to the fixpoint; both must hold the union",
+        large_reg_strategy, check_large_reg
     );
     vh_core::fuzz_section!(rep, "cluster", case_strategy, check, "sec_node", "node", 2_500, 400, 12);
     vh_core::fuzz_section!(rep, "forced_fetch", forced_strategy, check_forced, "sec_node", "node", 3_000, 240, 8);
